@@ -86,6 +86,35 @@ def gen_table(rng, maxn=6, aliases=True, pool=None, flags=True, allow_op=True, s
     return []
 
 
+def gen_chain_table(rng):
+    """a table in which known names nest as suffixes of one another through an operator word: stem[i:] + [op] + tail for
+    several i (aliases of one license, in a random order), and the stems alone as names of another license; returns
+    (table, stems, op) with stems the names that are complete operands when followed by the operator word and something else"""
+    for _ in range(50):
+        words = rng.sample(['gnu', 'gpl-2.0', 'free', 'lib', 'x1', 'v2', 'lesser', 'q'], rng.randint(3, 5))
+        op = rng.choice(['or', 'or', 'and', 'with'])
+        m = rng.randint(2, 3)
+        stem, tail = words[:m], words[m:m + rng.randint(1, 2)]
+        if not tail:
+            continue
+        chain = [' '.join(stem[i:] + [op] + tail) for i in range(m)]
+        if rng.random() < 0.5:
+            chain.append(' '.join([op] + tail))
+        starts = sorted(rng.sample(range(m), rng.randint(1, m)))
+        stems = [' '.join(stem[i:]) for i in starts]
+        order = rng.choice(['longest-first', 'shortest-first', 'shuffled'])
+        if order == 'shortest-first':
+            chain.reverse()
+        elif order == 'shuffled':
+            rng.shuffle(chain)
+        table = [['later-lic', chain, False], ['stem-lic', stems, bool(rng.random() < 0.3)], ['MIT', ['mit license'] if rng.random() < 0.5 else [], False]]
+        if rng.random() < 0.5:
+            table[0], table[1] = table[1], table[0]
+        if valid_table(table):
+            return table, stems, op
+    return None
+
+
 def variant(rng, name):
     """a case / whitespace variant of a stored name (same folded word sequence)"""
     pieces = impl.ac.get_tokens(name, lower=False)
